@@ -299,6 +299,7 @@ def gen_restart(rng, rep, cfg, via, faults=False):
         elif x < 0.45:
             op['drop_directed_key'] = True
             op['directed_arg'] = True if (not rep.m.directed and rng.random() < 0.3) else rep.m.directed
+            op['twice'] = rng.random() < 0.5
         return op
     op['target'] = rng.choice(['path', 'path', 'path', 'bytesio', 'simhandle', 'duck'])
     op['ext'] = rng.choice(['', '', '.gz', '.gzip', '.bz2'])
@@ -372,6 +373,7 @@ def gen_parse(rng, cfg):
     op['spell'] = {str(i): rng.choice(['zero', 'plus']) for i in range(len(rows)) if rng.random() < 0.2}
     nonascii = any(isinstance(n, str) and not n.isascii() for n in cfg['nodes'])
     op['encoding'] = rng.choice(['utf-8', 'latin-1', 'cp1252'] if nonascii else ENCODINGS)
+    op['conv'] = rng.choice(['int', 'int', 'lookup', 'fraction'])
     x = rng.random()
     if x < 0.15:
         op['bad_row'] = rng.randrange(len(rows))
